@@ -88,6 +88,38 @@ impl Group for SessGroup {
         for k in 0..=7 { v.push(fragmented_case(&[65535, 500, 700], &[e - 300, e + k], 0x10)); }
         for (r, k) in [(1usize, 1usize), (1023, 6), (1024, 3), (5000, 2), (8191, 5)] { v.push(fragmented_case(&[65535, 65535, 9], &[e - r, e + k, 2 * e - 7 - r, 2 * e - 7 + k], 0x20)); }
         v.push(fragmented_case(&[1, 2, 3], &[1, 2, 3, 4, 5, 6, 7, 8, 9, 10, 11, 12, 13, 14, 15, 16, 20, 21, 22, 23], 0x30));
+        // the peer stops reading with room for k bytes left, a keep-alive request arrives, time passes, the peer reads again
+        for role in ["server", "client"] {
+            for (k, ms) in [(1usize, 7000u64), (3, 7000), (6, 31000), (3, 100), (7, 7000), (0, 7000), (3, 61000)] {
+                let mut lines = vec![reset_line("sess", role, b"stop=0", 1, if role == "server" { "cb=1" } else { "" })];
+                if role == "server" { lines.push(format!("sess feed {}", hex(&ref_encode(1, 1, &[])))); } else { lines.push("sess open".into()); lines.push("sess nobuf".into()); lines.push("sess write 1 0102".into()); }
+                lines.push(format!("sess room {k}"));
+                lines.push(format!("sess feed {}", hex(&ref_encode(8, 7, &[]))));
+                lines.push(format!("sess tick {ms}"));
+                lines.push("sess room none".into());
+                lines.push(format!("sess feed {}", hex(&ref_encode(8, 8, &[]))));
+                lines.push("sess write 1 7461696c".into());
+                lines.push("sess state".into());
+                v.push(Case { lines });
+            }
+        }
+        // the peer ends the transport in the middle of a frame: 1..6 header bytes, or a header whose payload is incomplete
+        for role in ["server", "client"] {
+            for part in [&[2u8, 0, 0][..], &[2, 0, 0, 0, 1, 0][..], &[2, 0, 0, 0, 1, 0, 100, 9, 9, 9, 9, 9, 9, 9, 9, 9, 9][..], &[0, 0, 0, 0, 0, 255, 255, 1][..]] {
+                let mut lines = vec![reset_line("sess", role, b"stop=0", 1, if role == "server" { "cb=1" } else { "" })];
+                if role == "server" { lines.push(format!("sess feed {}", hex(&ref_encode(1, 1, &[])))); } else { lines.push("sess open".into()); }
+                lines.push(format!("sess feed {}", hex(&ref_encode(2, 1, b"abc"))));
+                lines.push(format!("sess feed {}", hex(part)));
+                lines.push("sess eof".into());
+                lines.push("sess state".into());
+                lines.push("sess read 0 100".into());
+                lines.push("sess read 0 100".into());
+                lines.push("sess open".into());
+                lines.push("sess write 1 0102".into());
+                lines.push("sess state".into());
+                v.push(Case { lines });
+            }
+        }
         v
     }
 
@@ -203,6 +235,29 @@ impl Group for SessGroup {
             };
             lines.push(format!("sess {l}"));
         }
+        if rng.chance(1, 12) {
+            // the peer stops reading for a while
+            lines.push(format!("sess room {}", rng.pick(&[0usize, 1, 2, 3, 5, 6, 7, 8, 20, 100])));
+            for _ in 0..rng.range(1, 3) {
+                // (no observer op here: anything that takes the session's locks waits behind the parked write, as it should)
+                lines.push(match rng.below(2) { 0 => format!("sess feed {}", hex(&ref_encode(8, rng.below(9) as u32, &[]))), _ => format!("sess feed {}", hex_compact(&gen_frame_bytes(rng, role == "client", &md5))) });
+            }
+            lines.push(format!("sess tick {}", rng.pick(&[10u64, 900, 4900, 5100, 10100, 31000, 61000])));
+            lines.push("sess room none".into());
+            lines.push(format!("sess feed {}", hex(&ref_encode(8, 5, &[]))));
+            lines.push("sess state".into());
+        } else if rng.chance(1, 10) {
+            // the transport ends in the middle of a frame
+            let f = gen_frame_bytes(rng, role == "client", &md5);
+            let mut f = if f.len() == 7 { ref_encode(2, 1, &rng.bytes(9)) } else { f };
+            let k = rng.range(1, f.len() as u64 - 1) as usize;
+            f.truncate(k);
+            lines.push(format!("sess feed {}", hex_compact(&f)));
+            lines.push(format!("sess {}", rng.pick(&["eof", "eof", "rderr"])));
+            lines.push("sess state".into());
+            lines.push("sess read 0 9".into());
+            lines.push("sess open".into());
+        }
         lines.push("sess state".into());
         Case { lines }
     }
@@ -218,7 +273,7 @@ pub fn exec_node_case(case: &Case, prefix: &str) -> Outcome {
     let mut out = Outcome::default();
     // O (C01/C08): when nothing kills the session or re-opens an id, a stream's reader obtains exactly the
     // payloads fed for its id while it was registered, and end of stream only after all of them
-    let clean = !case.lines.iter().any(|l| { let t: Vec<&str> = l.split_whitespace().collect(); matches!(t.get(1), Some(&"close") | Some(&"eof") | Some(&"rderr") | Some(&"budget") | Some(&"shortw")) || (t.get(1) == Some(&"feed") && t.get(2).map(|h| h.starts_with("05")).unwrap_or(false)) });
+    let clean = !case.lines.iter().any(|l| { let t: Vec<&str> = l.split_whitespace().collect(); matches!(t.get(1), Some(&"close") | Some(&"eof") | Some(&"rderr") | Some(&"budget") | Some(&"shortw") | Some(&"room")) || (t.get(1) == Some(&"feed") && t.get(2).map(|h| h.starts_with("05")).unwrap_or(false)) });
     let mut fed: std::collections::BTreeMap<u32, Vec<u8>> = std::collections::BTreeMap::new();
     let mut registered: std::collections::BTreeMap<u32, u32> = std::collections::BTreeMap::new(); // sid -> times opened
     let mut finished: std::collections::BTreeSet<u32> = std::collections::BTreeSet::new();
@@ -226,6 +281,16 @@ pub fn exec_node_case(case: &Case, prefix: &str) -> Outcome {
     // bytes fed and not yet making up a whole frame (a feed may end anywhere inside a frame)
     let mut feedbuf: Vec<u8> = vec![];
     let mut tainted: std::collections::BTreeSet<usize> = Default::default();
+    // the server node hands new streams to a callback (`cb=1`): every SYN for an id not seen before must arrive there
+    let mut has_cb = false;
+    let mut transport_ended = false;
+    // O (C11/C04): a peer that stops reading for a while and then reads again (`room k` .. `room none`) finds whole frames:
+    // no frame is cut short and none is glued onto a fragment, however long the pause was
+    let has_room = case.lines.iter().any(|l| l.split_whitespace().nth(1) == Some("room"));
+    let judge_room = has_room
+        && !case.lines.iter().any(|l| { let t: Vec<&str> = l.split_whitespace().collect(); matches!(t.get(1), Some(&"close") | Some(&"eof") | Some(&"rderr") | Some(&"budget")) || (t.get(1) == Some(&"feed") && t.get(2).map(|h| h.starts_with("05")).unwrap_or(false)) });
+    let mut room_active = false;
+    let mut last_rest: Option<usize> = None;
     rt.block_on(async {
         let mut node: Option<Node> = None;
         for line in &case.lines {
@@ -234,9 +299,10 @@ pub fn exec_node_case(case: &Case, prefix: &str) -> Outcome {
             let toks = &toks[1..];
             if toks.first() == Some(&"reset") {
                 if let Some(mut n) = node.take() { n.shutdown(); }
-                feedbuf.clear(); tainted.clear();
+                feedbuf.clear(); tainted.clear(); transport_ended = false;
                 match parse_reset(&toks[1..]) {
                     Some((role, scheme, seed, cb, ss)) => {
+                        has_cb = cb && role == "server";
                         install_draws(seed);
                         match Node::new(&role, &scheme, cb, ss, None).await {
                             Ok((n, o)) => { node = Some(n); out.obs.push(o); out.tags.push(format!("role={role}")); }
@@ -260,6 +326,11 @@ pub fn exec_node_case(case: &Case, prefix: &str) -> Outcome {
                                 let (frames, rest) = crate::g_frame::ref_parse(&feedbuf);
                                 feedbuf = rest;
                                 for (c, sid, d) in frames {
+                                    // O (C02): an opening frame for an id the session has not seen before opens that stream, whatever
+                                    // other ids were opened before it (ids need not arrive in order)
+                                    if c == 1 && !n.is_client && has_cb && !has_room && !registered.contains_key(&sid) && !n.handles.iter().any(|h| h.stream.id() == sid) {
+                                        out.oracle.push(OracleFail { sig: "syn_not_registered/handle_frame".into(), detail: format!("SYN for the fresh id {sid} (ids opened before: {:?}) did not reach the stream callback", registered.keys().collect::<Vec<_>>()) });
+                                    }
                                     if c == 1 && !n.is_client { *registered.entry(sid).or_insert(0) += 1; }
                                     if c == 2 && registered.contains_key(&sid) && !finished.contains(&sid) { fed.entry(sid).or_default().extend_from_slice(&d); }
                                     // (a FIN for an id that is not registered ends nothing: the id may be opened later)
@@ -300,6 +371,14 @@ pub fn exec_node_case(case: &Case, prefix: &str) -> Outcome {
                             _ => {}
                         }
                     }
+                    // O (C09): once the transport has ended (clean end of input or a read error), the session is visibly closed -
+                    // whatever was left in the receive buffer
+                    if matches!(toks, ["eof"] | ["rderr"]) { transport_ended = true; }
+                    if transport_ended && toks == ["state"] && o.starts_with("closed=0") {
+                        out.oracle.push(OracleFail { sig: "session_not_closed_after_transport_end/recv_loop".into(), detail: "the peer ended the transport; the session still reports open".into() });
+                    }
+                    if let ["room", k] = toks { room_active = *k != "none"; }
+                    if judge_room && !room_active { if let Some(r) = o.split(" rest=").nth(1).and_then(|x| x.split(' ').next()).and_then(|x| x.parse::<usize>().ok()) { last_rest = Some(r); } }
                     if o.starts_with("blocked") {
                         out.oracle.push(OracleFail { sig: format!("blocked_forever/{}", toks[0]), detail: format!("operation `{}` did not complete within the virtual watchdog", line) });
                     }
@@ -307,6 +386,9 @@ pub fn exec_node_case(case: &Case, prefix: &str) -> Outcome {
                 }
             }
         }
+        if judge_room && !room_active { if let Some(r) = last_rest { if r != 0 {
+            out.oracle.push(OracleFail { sig: "frame_torn/wire_after_backpressure".into(), detail: format!("the peer paused and read again; the bytes on the transport end with {r} bytes that are no whole frame (a frame was cut short or glued onto a fragment)") });
+        } } }
         if let Some(mut n) = node.take() { n.shutdown(); }
     });
     anytls_rs::verif::set_draw_controller(None);
